@@ -59,6 +59,12 @@ pub fn run(args: &Args, r: &mut Report) {
             case.shape.push(format!("failkey:{}", if k.starts_with('{') { "app" } else { &k }));
             case.fault.fail_keys.push(k);
         }
+        // ... nor must a backend that refuses the last-contact entry keep the counter and the poll interval from
+        // being stored (only those are judged then)
+        else if rng.chance(1, 10) {
+            case.fault.fail_keys.push("last_update_time".into());
+            case.shape.push("failkey:last-contact".into());
+        }
         // the device may stay down for a while before it is restarted
         if rng.chance(1, 3) {
             case.restart_gap_ns = *rng.pick(&[60i128, 3_600, 7_200, 86_400, 200_000, -3_600, -100_000]) * 1_000_000_000;
@@ -85,10 +91,12 @@ pub fn run(args: &Args, r: &mut Report) {
         case.nontrivial = true;
         // clean run (with a restart at the end)
         let sched_seed = rng.next_u64();
-        let run0 = {
+        let lc_faulty = case.fault.fail_keys.iter().any(|k| k == "last_update_time");
+        let mut run0 = {
             let mut srng = Rng::new(sched_seed);
             run_case_restart(&case, &[case.setup.clone()], &mut srng, 0)
         };
+        run0.flow.last_contact_store_faulty = lc_faulty;
         judge(r, args, i, &case, &run0, false);
         let n_int = run0.interactions_first;
         crash_points_total += n_int;
@@ -96,7 +104,8 @@ pub fn run(args: &Args, r: &mut Report) {
             let mut c2 = case.clone();
             c2.crash_at = Some(k);
             let mut srng = Rng::new(sched_seed);
-            let run = run_case_restart(&c2, &[case.setup.clone()], &mut srng, 0);
+            let mut run = run_case_restart(&c2, &[case.setup.clone()], &mut srng, 0);
+            run.flow.last_contact_store_faulty = lc_faulty;
             let cut = crash_kind(&run.w);
             c2.shape.push(format!("crash@{}", cut));
             r.eval(c2.shape_key(), true);
@@ -134,11 +143,15 @@ fn judge(r: &mut Report, args: &Args, i: u64, case: &FlowCase, run: &CaseRun, cr
         r.eval(case.shape_key(), case.nontrivial);
     }
     let mut m = Mon::default();
-    mon_state(&run.flow, &case.setup, Proj::Book, &mut m);
+    let lc_faulty = run.flow.last_contact_store_faulty;
+    let flow = &run.flow;
+    mon_state(flow, &case.setup, Proj::Book, &mut m);
     // "these values and the poll interval": the interval shown to the policy (also by a rebuilt machine, also
     // after a long downtime) is the model's / the committed one
-    mon_state(&run.flow, &case.setup, Proj::Poll, &mut m);
-    mon_c08_mixture(&run.flow, &mut m);
+    mon_state(flow, &case.setup, Proj::Poll, &mut m);
+    if !lc_faulty {
+        mon_c08_mixture(&run.flow, &mut m);
+    }
     // the restarted machine must have asked its policy (otherwise nothing was judged after the crash)
     if case.setup.start_mode {
         let after = run.flow.restarts.first().map(|x| x.0);
